@@ -737,6 +737,20 @@ Proof.
     unfold sfacts. rewrite Hsv, Hsl', Hstr, Hv2, Hsl2. repeat split; try assumption. unfold loaded. rewrite Hprog. exact Hld.
 Qed.
 
+(* in particular a completed statement leaves the value stack as long as it found it *)
+Corollary stmt_leaves_stack : forall sb n sd s sr sa pb pd p pr pa st r st2 k',
+  srcl = sb ++ (n, sd ++ s :: sr) :: sa -> pls = pb ++ (n, pd ++ p :: pr) :: pa ->
+  Forall2 lmatch sb pb -> Forall2 gstmt sd pd -> gstmt s p -> Forall2 gstmt sr pr -> Forall2 lmatch sa pa ->
+  r_pc r = lenN (prog_ops pb) + lenN (flat_map pc_ops pd) -> sfacts st r ->
+  exec O srcl 200 n s (tag_line n sr, n) st = (st2, Go k') ->
+  exists outs r2, vm_steps r outs r2 /\ r_slen r2 = r_slen r.
+Proof.
+  intros sb n sd s sr sa pb pd p pr pa st r st2 k' Es Ep Hb Hd Hs Hr Ha Hpc Hf Hex.
+  pose proof (stmt_step sb n sd s sr sa pb pd p pr pa st r Es Ep Hb Hd Hs Hr Ha Hpc Hf) as H. rewrite Hex in H. cbn [outcome] in H.
+  destruct H as (outs & r2 & Hsteps & _ & (_ & _ & (_ & _ & _ & _ & Hsl2 & _))). exists outs, r2. split; [exact Hsteps |].
+  destruct Hf as (_ & _ & _ & _ & Hsl & _). rewrite Hsl2, Hsl. reflexivity.
+Qed.
+
 Lemma Forall2_In_l {A B} (R : A -> B -> Prop) : forall l l', Forall2 R l l' -> forall x, In x l -> exists y, In y l' /\ R x y.
 Proof.
   induction 1 as [| a b l l' Hab _ IH]; intros x Hin; [destruct Hin |]. destruct Hin as [<- | Hin].
